@@ -833,7 +833,7 @@ def check_scenario(scn, lines):
         for c in st["toconv"]:
             if c not in attached and not inflight and st["toconv"][c]:
                 F.append(Finding("C16", "queued-after-detach", name, i, {"conv": c, "queued": st["toconv"][c]}))
-        # detach (C16_detach_dequeues_partial): right after a converter was taken from a tag (set-converter / delete), none of
+        # detach (C16_detach_dequeues): right after a converter was taken from a tag (set-converter / delete), none of
         # the tag's streams is queued for it any more unless another tag with the converter matches the stream -- also
         # while a converter job is in flight
         if prev_st is not None:
